@@ -48,6 +48,13 @@ Shapes == <<
   << SubA(<<<<0,0>>,<<2,0>>,<<2,2>>,<<0,2>>>>, TRUE, <<<<0,0,0>>,<<0,0,0>>,<<1,0,1>>,<<0,0,0>>>>) >>,            \* 12 D-shape: half circle, centre (2,1)
   << SubA(<<<<0,0>>,<<2,0>>,<<3,1>>,<<2,2>>,<<0,2>>>>, TRUE, <<<<0,0,0>>,<<0,0,0>>,<<1,0,1>>,<<0,0,0>>,<<0,0,0>>>>) >>  \* 13 quarter circle, then a line back to the x of the arc's start
 >>
+\* rotated ellipses (raster scenes only; draw.shape = 20 + index): centre c, radii a (along the rotated x axis) and b, rotation
+\* (cr, sr) / den = (cos, sin): a Pythagorean angle atan(3/4), a quarter turn, and atan(4/3). Drawn as two ArcTo commands with that
+\* x-axis rotation, counter-clockwise.
+Ells == << [c |-> <<4,3>>, a |-> 3, b |-> 1, cr |-> 4, sr |-> 3, den |-> 5],
+           [c |-> <<3,3>>, a |-> 2, b |-> 1, cr |-> 0, sr |-> 1, den |-> 1],
+           [c |-> <<3,3>>, a |-> 3, b |-> 2, cr |-> 3, sr |-> 4, den |-> 5] >>
+IsEll(d) == d.shape > 20
 HasArc(sh) == \E j \in 1..Len(sh) : \E i \in 1..Len(sh[j].p) : sh[j].arc[i][1] > 0
 NShapes == Len(Shapes)
 
@@ -79,8 +86,10 @@ PaintTab == [ black  |-> [rgb |-> <<0,0,0>>,     a |-> 255, pm |-> <<0,0,0,255>>
               green  |-> [rgb |-> <<0,255,0>>,   a |-> 255, pm |-> <<0,255,0,255>>],
               grey   |-> [rgb |-> <<128,128,128>>, a |-> 255, pm |-> <<128,128,128,255>>],
               \* a linear gradient whose stops all have this colour (exact expectation; exercises the gradient branch of the rasterizer)
-              ggrey  |-> [rgb |-> <<128,128,128>>, a |-> 255, pm |-> <<128,128,128,255>>] ]
-PaintNames == <<"black","red","redh","dred","blue","blueh","green","grey","ggrey">>
+              ggrey  |-> [rgb |-> <<128,128,128>>, a |-> 255, pm |-> <<128,128,128,255>>],
+              \* a translucent paint whose channels differ from each other and from alpha (raster scenes only; rgb is the rounded un-premultiplied value)
+              tbrown |-> [rgb |-> <<201,100,60>>, a |-> 127, pm |-> <<100,50,30,127>>] ]
+PaintNames == <<"black","red","redh","dred","blue","blueh","green","grey","ggrey","tbrown">>
 Grads == {"ggrey"}
 \* joins: 0 miter limit 4 | 1 miter limit 10 | 2 bevel | 3 round | 4 miter-clip limit 4 | 5 arcs limit 4
 JoinKind(j) == CASE j \in {0,1} -> "miter" [] j = 2 -> "bevel" [] j = 3 -> "round" [] j = 4 -> "miterclip" [] j = 5 -> "arcs"
@@ -90,7 +99,7 @@ ImgW == 2
 ImgH == 3
 
 Header == [hdr |-> TRUE, W |-> CW, H |-> CH, shapes |-> Shapes, views |-> Views, paints |-> PaintTab,
-           grads |-> Grads, dashes |-> <<DashArr(0), DashArr(1), DashArr(2)>>, joinlimit |-> <<4,10,4,4,4,4>>, imgw |-> ImgW, imgh |-> ImgH]
+           grads |-> Grads, ells |-> Ells, dashes |-> <<DashArr(0), DashArr(1), DashArr(2)>>, joinlimit |-> <<4,10,4,4,4,4>>, imgw |-> ImgW, imgh |-> ImgH]
 
 \* ---------------------------------------------------------------------------------------------
 \* draws and programs
@@ -103,12 +112,14 @@ C12Views == {1,2,3,4,5,6,7,9}
 GeomC12(arcs) == [shape: IF arcs THEN C12Shapes ELSE {1,2,3,4,5,6}, view: C12Views]
 Mk(st, g) == [shape |-> g.shape, view |-> g.view, cs |-> 0, fill |-> st.fill, stroke |-> st.stroke, width |-> st.width, cap |-> st.cap,
               join |-> st.join, dash |-> st.dash, off |-> st.off, rule |-> st.rule, img |-> st.img]
-RawDraws == [shape: 1..11, view: {1,2,3,4,5,6,8}, cs: 0..3, fill: {"none","red","green","grey","black","ggrey"}, stroke: {"none","none","blue"},
+RawDraws == [shape: IF Mode = "rande" THEN (1..11) \cup {21, 22, 23} ELSE 1..11,      \* "rande": with the rotated ellipses (small integer resolutions)
+             view: {1,2,3,4,5,6,8}, cs: 0..3, fill: {"none","red","green","grey","black","ggrey","tbrown"}, stroke: {"none","none","blue"},
              width: {1,2}, cap: {0}, join: {2,3}, dash: {0}, off: {0}, rule: 0..3, img: {0}]             \* C14 scenes
 \* a draw without fill and stroke records nothing (Context.DrawPath returns): repaired to a black fill
 \* (a dash offset without a dash array is kept out of the bulk programs: the pdf back-end does not terminate on a negative one --
 \*  the programs of Mode "solidoff" exercise exactly that, in a child process)
-Fix(d0) == LET d == IF d0.dash = 0 THEN [d0 EXCEPT !.off = 0] ELSE d0 IN
+Fix(d00) == LET d0 == IF d00.shape > 20 THEN [d00 EXCEPT !.stroke = "none"] ELSE d00          \* ellipses are only filled
+               d == IF d0.dash = 0 THEN [d0 EXCEPT !.off = 0] ELSE d0 IN
            IF d.fill = "none" /\ d.stroke = "none" THEN [d EXCEPT !.fill = "black"] ELSE d
 SolidOff == [shape: {1}, view: {1, 3}, cs: {0}, fill: {"none", "red"}, stroke: {"blue"}, width: {2}, cap: {0}, join: {0, 4}, dash: {0}, off: {-1, 1}, rule: {0}, img: {0}]
 \* (fill and stroke share the colours red and blue: a back-end with ONE current colour (PostScript) must re-emit it after grestore)
